@@ -127,8 +127,10 @@ class Ctx:
         with open(tf) as f:
             traces = json.load(f)
         traces.sort(key=lambda t: t["tid"])
+        ms = sorted((t.get("ms", 0) for t in traces), reverse=True)
         self.mc_runs.append({"role": "drive real code", "driver": driver, "scenarios": len(scenarios),
-                             "wall_s": round(time.time() - t_drive, 1)})
+                             "wall_s": round(time.time() - t_drive, 1), "cpu_s_in_calls": round(sum(ms) / 1000.0, 1),
+                             "slowest_ms": ms[:8]})
         return traces
 
     # ---------------- stage D: TLC validates the traces ----------------
